@@ -5,7 +5,10 @@ package redis
 
 import (
 	"io"
+	"net"
 	"strconv"
+
+	"github.com/samaritan-proxy/samaritan/proc/internal/log"
 )
 
 // Re-exports for the verification harness (/verif). Compiled only with -tags verif.
@@ -67,3 +70,49 @@ func VerifChooseSlot(key []byte) (string, error) {
 	req := newSimpleRequest(newByteArray([]byte("set"), key, []byte("v")))
 	return verifSlotUpstream.chooseHost(key, req)
 }
+
+// VerifClient drives one backend connection (the unexported client) directly.
+type VerifClient struct{ c *client }
+
+// VerifSimple is a request handed to a backend connection.
+type VerifSimple struct{ r *simpleRequest }
+
+// VerifNewClient is newClient over an established connection (filters as in production, no redirection callbacks).
+func VerifNewClient(conn net.Conn) (*VerifClient, error) {
+	c, err := newClient(conn, newConfig(nil), log.New("[verif-client]"))
+	if err != nil {
+		return nil, err
+	}
+	return &VerifClient{c: c}, nil
+}
+
+// Is reports whether obj (as passed to the pause hook) is this connection.
+func (v *VerifClient) Is(obj interface{}) bool { c, ok := obj.(*client); return ok && c == v.c }
+
+func (v *VerifClient) Start() { v.c.Start() }
+func (v *VerifClient) Stop()  { v.c.Stop() }
+
+// Send is client.Send on a fresh request with the given body.
+func (v *VerifClient) Send(body *RespValue) *VerifSimple {
+	r := newSimpleRequest(body)
+	s := &VerifSimple{r: r}
+	v.c.Send(r)
+	return s
+}
+
+// NewRequest builds a request without sending it; SendReq sends it.
+func VerifNewSimple(body *RespValue) *VerifSimple { return &VerifSimple{r: newSimpleRequest(body)} }
+func (v *VerifClient) SendReq(s *VerifSimple)     { v.c.Send(s.r) }
+
+// Done reports whether the request has been answered.
+func (s *VerifSimple) Done() bool {
+	select {
+	case <-s.r.done:
+		return true
+	default:
+		return false
+	}
+}
+
+// Response is the reply (nil until Done).
+func (s *VerifSimple) Response() *RespValue { return s.r.resp }
